@@ -51,7 +51,7 @@ def structured_family():
     """accepted programs aimed at mechanisms through which declaration order could leak: (name, program in dependency order).
     The reference is evaluated on the given (dependency) order; every permutation must reproduce it."""
     from bsyntax import (Program, Func, Class, Ctor, Method, Field, Param, P, C, VOID, I, S, Var, New, Decl, Echo, Ret, Expr, Call,
-                         MCall, Asg, Bin, Fld, FAsg, This, SFld, Super)
+                         MCall, SCall, Asg, Bin, Fld, FAsg, This, SFld, Super)
     out = []
     counter = Class("Counter", "", [Field(P("int"), "n")],
                     [Method("bump", [], P("int"), [Expr(FAsg(This(), "n", Bin("+", Fld(This(), "n"), I(1)))), Ret(Fld(This(), "n"))])],
@@ -119,6 +119,28 @@ def structured_family():
     out.append(("generic static initialiser reading another class's static", Program([
         Func("main", [], VOID, [Decl(C("SubS"), "x", New("SubS")), Echo(MCall(Var("x"), "get")), Decl(C("GS", [P("str")]), "y", New("GS", targs=[P("str")])), Echo(MCall(Var("y"), "get")),
                                 Echo(SFld("Conf", "base"))])], [conf, gs, sub])))
+    # 9. a type parameter named like a class declared elsewhere: it shadows that class inside its own generic class only
+    item = Class("Item", "", [Field(P("int"), "id", I(4))], [Method("show", [], P("int"), [Ret(Bin("+", Var("id"), I(100)))])], [Ctor([], [], default=True)], [])
+    shelf = Class("Shelf", "", [Field(C("Item"), "first")], [Method("top", [], P("int"), [Ret(MCall(Var("first"), "show"))])],
+                  [Ctor([], [Expr(Asg("first", New("Item")))])], [])
+    boxi = Class("Box", "", [Field(P("Item"), "content")], [Method("get", [], P("Item"), [Ret(Var("content"))])],
+                 [Ctor([Param(P("Item"), "c0")], [Expr(FAsg(This(), "content", Var("c0")))])], [], tparams=["Item"])
+    other = Class("Other", "", [Field(C("Item"), "held")], [Method("peek", [], P("int"), [Ret(Fld(Var("held"), "id"))])], [Ctor([], [Expr(FAsg(This(), "held", New("Item")))])], [])
+    out.append(("type parameter named like a class", Program([
+        Func("mk", [], C("Item"), [Ret(New("Item"))]),
+        Func("main", [], VOID, [Decl(C("Shelf"), "sh", New("Shelf")), Echo(MCall(Var("sh"), "top")), Decl(C("Box", [C("Shelf")]), "b", New("Box", Var("sh"), targs=[C("Shelf")])),
+                                Echo(MCall(MCall(Var("b"), "get"), "top")), Echo(MCall(New("Other"), "peek")), Echo(Fld(Call("mk"), "id"))])], [item, shelf, boxi, other])))
+    # 10. static initialisers that call into another class (a static method reading its statics by bare name; a constructor whose
+    #     field initialisers and methods read a static by bare name) before that class's own turn
+    rates = Class("Rates", "", [Field(P("int"), "base", I(20), static=True), Field(P("int"), "step", I(1), static=True)],
+                  [Method("next", [], P("int"), [Ret(Bin("+", Var("base"), Var("step")))], static=True)], [Ctor([], [], default=True)], [])
+    plan = Class("Plan", "", [Field(P("int"), "budget", Bin("*", SCall("Rates", "next"), I(2)), static=True)], [], [Ctor([], [], default=True)], [])
+    token = Class("Token", "", [Field(P("int"), "seed", I(7), static=True), Field(P("int"), "id", Bin("*", Var("seed"), I(3)))],
+                  [Method("value", [], P("int"), [Ret(Bin("+", Var("id"), Var("seed")))])], [Ctor([], [], default=True)], [])
+    vault = Class("Vault", "", [Field(P("int"), "opening", MCall(New("Token"), "value"), static=True)], [], [Ctor([], [], default=True)], [])
+    out.append(("static initialisers calling into classes not yet initialised", Program([
+        Func("main", [], VOID, [Echo(SFld("Plan", "budget")), Echo(SCall("Rates", "next")), Echo(SFld("Vault", "opening")), Decl(C("Token"), "t", New("Token")), Echo(MCall(Var("t"), "value"))])],
+        [rates, plan, token, vault])))
     return out
 
 
